@@ -45,10 +45,10 @@ CHECKS = {
         text="Honest sessions over universes of 2..12 members, participant subsets and identifiers from the whole 16-bit range: exactly-expected callers must all complete with identical valid lists (bounded progress, watchdog + replay), fewer must all fail without continuation, more are judged by the two-outcome, validity and agreement oracles only. Byzantine members are real Member instances under one identifier with filtered inputs and re-routed outputs: partition-and-lie, shadow coalition with a phantom of a silent member (its acknowledgements are re-routed to the honest members), two-faced, replaying outsider/member, response flood. Evidence counts honest completions under attack; a floor requires them.",
         note="Trusted: harness network (per-link FIFO, true origin), the plans (targeted, not exhaustive). Unbounded liveness is restated as completion within a generous deadline with a replay at 5x before judging.",
         design="2/C07"),
-    "C13": dict(level="exploration", engine="hcore",
+    "C13": dict(level="exploration", engine="hcore+hcrypto+hbinance",
         technique="runtime monitoring: completion + exactly-once totality oracle on scripted full-stack sessions whose identifiers are drawn along the byte boundaries of the 16-bit range (all pairs/triples in thorough), rounds 0..127, loud and silent mode",
         text="Sessions of size 2 and 3 (3 makes acknowledgements matter) with node = party identifiers from {0,1,2,127,128,254,255,256,257,511,512,513,32767,32768,65279,65280,65534,65535} and PRNG identifiers elsewhere; key generation then signing with two rounds cycling through 0..127; every session must complete and hand every message over exactly once, i.e. every identifier, view, round and digest one party encoded was decoded to the same value by its peers.",
-        note="Trusted: harness recorder/network. Serialisation round trips of key material (BLS/PS/EdDSA) are the crypto drivers' part (added to this check when built).",
+        note="Trusted: harness recorder/network. BLS/PS/EdDSA key generations with boundary and PRNG 16-bit party identifiers are followed by signing/verifying with objects re-created ONLY from the serialised stored data / ThresholdPK() bytes (units c13crypto, c13adapters). Identifier 0 is not used with the tss-lib adapters (the party key is the Shamir evaluation point).",
         design="2/C13"),
     "C01": dict(level="exploration", engine="hcrypto",
         technique="runtime monitoring: byte-equality of public material across parties and an independent verification of every aggregated subset signature, over BLS key generations run with directly wired backends and through real Loud/Silent schemes on the simulated network (PRNG delivery policies, staggered starts)",
@@ -90,6 +90,11 @@ CHECKS = {
         text="Sizes {0,1,31,32,33,255,256,65535,65536,1 MiB,3 MiB,limit-1,limit,limit+1}, types with and without topic, up to 8 concurrent senders to two receivers; five garbling raw clients; three isolation scenarios (thorough adds the saturated queue of an unreachable peer: three 10 s stalls are reported, never a panic).",
         note="Trusted: loopback TCP; 'all received' is bounded by message count with a 60 s watchdog.",
         design="2/C17"),
+    "C19": dict(level="exploration", engine="hbinance",
+        technique="runtime monitoring of complete tss-lib runs through the adapters with a recording sendMsg: classification table oracle (receiver's ClassifyMsg vs tss-lib's routing flag, non-zero and distinct rounds), independent signature verification (crypto/ed25519, crypto/ecdsa) over boundary digests, digest mix-up sessions, re-attribution and outsider-injection sessions with safety outcome oracles",
+        text="EdDSA (n,t) in {(2,1),(3,1),(3,2),(4,2),(4,3)} with identifier sets 1..n, gaps and PRNG 16-bit; ECDSA (2,1) quick, (3,1),(3,2) thorough; EdDSA key generation and orchestrated signing through real Loud/Silent schemes (this also decides C01's orchestrated-signing clause). Outsiders whose identifiers lie between the members' re-send every genuine message first: the session must complete as if nothing happened.",
+        note="tss-lib v2.0.2 wire bytes carry no embedded sender, so the 'embedded sender differs' clause cannot occur on the wire; the consequence it protects (no message credited to anyone but its transport sender) is what is decided. Trusted: crypto/ed25519, crypto/ecdsa.",
+        design="2/C19"),
 }
 
 NOT_YET = {}
@@ -136,6 +141,7 @@ def main():
         },
         "engines": [
             {"name": "hrun", "path": "/verif/harness/cmd/hrun", "serves_properties": ids, "kind_free_text": "parent process: starts child drivers per shard, survives their death, merges observations, matches known findings, writes evidence"},
+            {"name": "hbinance", "path": "/verif/harness/cmd/hbinance", "serves_properties": [i for i in ids if CHECKS.get(i, {}).get("engine", "").find("hbinance") >= 0], "kind_free_text": "runtime monitors over the tss-lib adapters (mpc/binance/ecdsa, mpc/binance/eddsa): recording wiring, classification oracle, independent signature verification, re-attribution and outsider injection"},
             {"name": "hcrypto", "path": "/verif/harness/cmd/hcrypto", "serves_properties": [i for i in ids if CHECKS.get(i, {}).get("engine", "").find("hcrypto") >= 0], "kind_free_text": "runtime monitors over the built-in schemes (mpc/bls, mpc/ps): directly wired key generations with PRNG delivery and goroutine-state quiescence detection, Byzantine wrappers, perturbation catalogue, crash-point enumeration"},
             {"name": "hcore", "path": "/verif/harness/cmd/hcore", "serves_properties": [i for i in ids if CHECKS.get(i, {}).get("engine", "").find("hcore") >= 0], "kind_free_text": "runtime monitors over the core packages (threshold, rbc, disc, msg, net): simulated network, scripted backend, sleep-set DFS over delivery schedules, controlled scheduler over verif yield points"},
         ],
